@@ -210,7 +210,7 @@ func (f *NonNilFlow) EnsuresOnNilErr(g *ssa.Function, field string) bool {
 	gpath := g.Params[0].Name() + "." + field
 	ok, n := true, 0
 	for _, r := range ReturnsOf(g) {
-		if f.m.ProvablyNonNilError(RetVal(r, ei), r.Block()) {
+		if f.m.RetNonNil(r, ei) {
 			continue
 		}
 		n++
